@@ -502,6 +502,11 @@ def c19_bad(tier, rnd):
         al = Alloc(tier)
         P([Text("pre"), Open(sub=("content", False, pipe(al.call("content", [S("a"), EXC("KeyError"), EXC("ZeroDivisionError")]), b))),
            Text("k"), CLOSE, Text("post")], al, "later-pipe-alternative")
+        # after a literal alternative (which can never fail) the invalid one is still a compile error in strict mode
+        al = Alloc(tier)
+        P([Text("pre"), Open(sub=("content", False, pipe(const(S("a")), b))), Text("k"), CLOSE, Text("post")], al, "after-literal-alternative")
+        al = Alloc(tier)
+        P([Text("pre"), Open(dattr=[("title", pipe(var("nope"), const(I(7)), b))]), Text("k"), CLOSE, Text("post")], al, "after-name-and-literal")
         al = Alloc(tier)
         P([Text("pre"), Open(cond=b), Text("k", bad(kbad + 1)), CLOSE, Text("post")], al, "two-plants")
         # the same invalid text at two sites: an unreached one first, then a reached one (same location?)
